@@ -334,6 +334,12 @@ impl Monitor for FsMon {
             return Some(v);
         }
         if end != EndReason::Quiescent {
+            // the run was cut off: an upload worker that is still going never reached its clean-up
+            for (path, tasks) in &self.order {
+                if tasks.iter().any(|t| w.task_alive(*t)) {
+                    return Some(Violation::new("C13", "C13.worker_never_ended", format!("an upload worker for {} is still running when the run is cut off ({end:?}): the failed upload is never cleaned up", path.display())));
+                }
+            }
             return None;
         }
         // per path: if every worker for it failed, the clean/keep rule applies
